@@ -248,3 +248,117 @@ theorem step_hwinv (s : LSt) (o : Op) (h : HwInv s) : HwInv (step s o).1 := by
   | fire k => exact stepFire_hw s k h
 
 end MpfVerif.Light
+
+namespace MpfVerif.Light
+
+/-- every fade-out entry on the stack has its own pending removal delay, due exactly at the end of its fade —
+however many keys are fading out at the same time -/
+def GhostTimers (s : LSt) : Prop := ∀ e ∈ s.stack, e.destC = none → (e.key, e.destT) ∈ s.timers
+
+theorem schedule_timers (s : LSt) : (schedule s).1.timers = s.timers := by
+  unfold schedule
+  cases s.last with
+  | none => rfl
+  | some l =>
+    simp only
+    split
+    · rfl
+    · split <;> rfl
+
+theorem ghostTimers_of_eq (s s' : LSt) (hs : s'.stack = s.stack) (ht : s'.timers = s.timers) (h : GhostTimers s) :
+    GhostTimers s' := by
+  unfold GhostTimers; rw [hs, ht]; exact h
+
+theorem schedule_ghost (s : LSt) (h : GhostTimers s) : GhostTimers (schedule s).1 :=
+  ghostTimers_of_eq s _ (schedule_stack s) (schedule_timers s) h
+
+theorem ghost_remove (s : LSt) (k : Nat) (h : GhostTimers s) : GhostTimers { s with stack := removeKey k s.stack } := by
+  intro x hx hc
+  exact h x (List.mem_filter.mp hx).1 hc
+
+theorem ghost_insert (s : LSt) (g : Entry) (k : Nat) (hk : g.key = k) (h : GhostTimers s) :
+    GhostTimers { s with stack := insertE g (removeKey k s.stack),
+                         timers := (k, g.destT) :: s.timers.filter (fun t => decide (t.1 ≠ k)) } := by
+  intro x hx hc
+  simp only at hx
+  rcases (mem_insertE _ _ _).mp hx with rfl | hx
+  · rw [hk]; exact List.mem_cons_self
+  · have hne := removeKey_keys k s.stack x hx
+    exact List.mem_cons_of_mem _ (List.mem_filter.mpr ⟨h x (List.mem_filter.mp hx).1 hc, by simpa using hne⟩)
+
+theorem ghost_fire (s : LSt) (k : Nat) (h : GhostTimers s) :
+    GhostTimers { s with timers := s.timers.filter (fun t => decide (t.1 ≠ k)),
+                         stack := s.stack.filter (fun e => decide (e.key ≠ k) || e.destC.isSome) } := by
+  intro e he hc
+  have hm := List.mem_filter.mp he
+  have hne : e.key ≠ k := by simpa [hc] using hm.2
+  exact List.mem_filter.mpr ⟨h e hm.1 hc, by simpa using hne⟩
+
+theorem scanGhost_none (k : Nat) : ∀ (l : List Entry) (ch : Bool), scanGhost k l ch = none →
+    ∀ x ∈ l, ¬ (x.key = k ∧ x.destC.isNone = true) := by
+  intro l
+  induction l with
+  | nil => intro _ _ x hx; simp at hx
+  | cons y r ih =>
+    intro ch hsc x hx
+    unfold scanGhost at hsc
+    split at hsc
+    · simp at hsc
+    · rename_i hy
+      rcases List.mem_cons.mp hx with rfl | hx
+      · exact hy
+      · exact ih _ hsc x hx
+
+theorem step_ghostTimers (s : LSt) (o : Op) (h : GhostTimers s) : GhostTimers (step s o).1 := by
+  cases o with
+  | adv t => exact h
+  | color c fade p k st =>
+    show GhostTimers (stepColor s c fade p k st).1
+    have key : GhostTimers { s with stack := addStack s.now c fade p k st s.stack } := by
+      intro e he hc
+      simp only at he
+      unfold addStack at he
+      split at he
+      · exact h e he hc
+      · rcases (mem_insertE _ _ _).mp he with rfl | he
+        · split at hc <;> simp at hc
+        · exact h e (List.mem_filter.mp he).1 hc
+    unfold stepColor
+    split
+    · exact schedule_ghost _ key
+    · exact key
+  | remove k fade =>
+    show GhostTimers (stepRemove s k fade).1
+    unfold stepRemove
+    split
+    · exact h
+    · exact h
+    · rename_i ch e tl _
+      by_cases hf : (if e.destC.isNone = true then 0 else fade) = 0
+      · simp only [hf, if_true]
+        split
+        · exact schedule_ghost _ (ghost_remove s k h)
+        · exact ghost_remove s k h
+      · simp only [hf, if_false]
+        split
+        · exact schedule_ghost _ (ghost_insert s _ k rfl h)
+        · exact ghost_insert s _ k rfl h
+  | clear =>
+    show GhostTimers (schedule { s with stack := [] }).1
+    exact schedule_ghost _ (by intro e he; simp at he)
+  | fire k =>
+    show GhostTimers ((stepFire s k).getD (s, [])).1
+    unfold stepFire
+    split
+    · simp only
+      split
+      · rename_i hscan
+        intro e he hc
+        have hne : e.key ≠ k := fun hk => scanGhost_none k _ _ hscan e he ⟨hk, by simp [hc]⟩
+        exact List.mem_filter.mpr ⟨h e he hc, by simpa using hne⟩
+      · split
+        · simp only [Option.getD_some]; exact schedule_ghost _ (ghost_fire s k h)
+        · exact ghost_fire s k h
+    · exact h
+
+end MpfVerif.Light
